@@ -416,9 +416,75 @@ def rule_m16(repo):
                     '%s:%d' % (mi.eval.module.rel, loc.lineno))
     return res
 
+def rule_m17(repo, rid='C04.M17'):
+    """An evaluation may state a sequent with a hypothesis of its own making (`Thm(goal, h)`: the step *assumes* h).  The
+    expansion then has to assume that same h (`ProofTerm.assume(h)`), in every case - otherwise the proof it produces has
+    another left-hand side than the sequent the evaluation reported, and the checker refuses the expansion of a step it
+    accepted by evaluation.  Where several cases can apply to one input (x = y with both x := y and y := x in the context)
+    "the same in every case" includes trying the cases in the same order.  Both methods are read as decision tables over
+    their atomic tests (loops over written-out tuples unrolled); for every assignment under which both answer, the sets
+    of invented hypotheses are compared."""
+    import itertools
+    from ..normalize import unroll_literal_loops
+    from ..decide import atoms_of, decision_table
+    from ..flow import LocalFlow
+    from ..core import AnalysisError
+    from .agree import exclusive_ok
+    res = RuleResult(rid, 'the hypothesis an evaluation invents is the one the expansion assumes, case by case', floor=1)
+
+    def canon(flow, e, ren):
+        t = src(flow.inline(e), 300)
+        for a, b in ren.items():
+            t = re.sub(r'(?<![\w.])%s(?![\w])' % re.escape(a), b, t)
+        # Eq(X.lhs, X.rhs) is X for an equation X (both methods reach these returns behind is_equals / by reading .lhs)
+        t = re.sub(r'Eq\((\w[\w.]*)\.lhs, \1\.rhs\)', r'\1', t)
+        return t
+    for mi in macro_index(repo):
+        if mi.eval is None or mi.gpt is None:
+            continue
+        invented = [r for r in ast.walk(mi.eval.node) if isinstance(r, ast.Return) and isinstance(r.value, ast.Call) and call_name(r.value) == 'Thm' and
+                    len(r.value.args) >= 2 and all(isinstance(a, (ast.Name, ast.Call)) and 'hyps' not in src(a, 200) for a in r.value.args[1:])]
+        assumed = [c for c in ast.walk(mi.gpt.node) if isinstance(c, ast.Call) and (call_name(c) or '').endswith('ProofTerm.assume')]
+        if not invented or not assumed:
+            continue
+        ev, gp = unroll_literal_loops(mi.eval.node), unroll_literal_loops(mi.gpt.node)
+        fe, fg = LocalFlow(ev), LocalFlow(gp)
+        pe = [a.arg for a in ev.args.args][1:]
+        pg = [a.arg for a in gp.args.args][1:]
+        ren = dict(zip(pg, pe))
+        ce, cg = cfg_of(ev), cfg_of(gp)
+        try:
+            atoms = sorted(set(atoms_of(ce)) | set(atoms_of(cg, ren)))
+            te = decision_table(ce, atoms, lambda r: frozenset(canon(fe, a, {}) for a in r.value.args[1:])
+                                if isinstance(r.value, ast.Call) and call_name(r.value) == 'Thm' else 'other', what=mi.key + ' eval')
+            tg = decision_table(cg, atoms, lambda r: frozenset(canon(fg, c.args[0], ren) for c in ast.walk(fg.inline(r.value))
+                                                               if isinstance(c, ast.Call) and (call_name(c) or '').endswith('ProofTerm.assume') and c.args),
+                                rename=ren, what=mi.key + ' expansion')
+        except AnalysisError as e:
+            res.info.setdefault('not_compared', []).append('%s: %s' % (mi.key, e))
+            continue
+        bad = []
+        for vals in itertools.product((False, True), repeat=len(atoms)):
+            a, b = te.get(vals), tg.get(vals)
+            if not isinstance(a, frozenset) or not isinstance(b, frozenset) or not exclusive_ok(dict(zip(atoms, vals))):
+                continue
+            if a != b:
+                bad.append((vals, a, b))
+        detail = ''
+        if bad:
+            vals, a, b = min(bad, key=lambda x: -sum(x[0]))
+            detail = ('when %s: the evaluation states the hypothesis %s, the expansion assumes %s - the expansion of an accepted step is then no proof of the '
+                      'sequent that was reported (refl with x := y and y := x in the context, goal x = y)' % (
+                          ' and '.join('%s%s' % ('' if v else 'not ', t) for t, v in zip(atoms, vals) if v) or 'no test holds',
+                          ' / '.join(sorted(a)) or 'nothing', ' / '.join(sorted(b)) or 'nothing'))
+        res.add('%s :: eval-vs-expansion :: invented-hypotheses' % mi.key, not bad,
+                '%d atomic tests, the same hypotheses under every assignment' % len(atoms) if not bad else detail,
+                '%s:%d' % (mi.eval.module.rel, mi.eval.node.lineno))
+    return res
+
 
 def rules(repo):
     m1 = mr.hyps_rule(repo, 'C04.M1', mr.all_macros, floor=95)
     m2 = mr.zip_rule(repo, 'C04.M2', mr.macro_eval_functions(repo), floor=4)
     return [m1, m2, rule_m3(repo), rule_m5(repo), rule_m6(repo), rule_m7(repo), rule_m8(repo), rule_m9(repo), rule_m10(repo), mr.expansion_uses_rule(repo, 'C04.M11', mr.all_macros, floor=25),
-            mr.argument_dependence_rule(repo, 'C04.M12', mr.all_macros, floor=30), rule_m13(repo), rule_m14(repo), rule_m15(repo), rule_m16(repo)]
+            mr.argument_dependence_rule(repo, 'C04.M12', mr.all_macros, floor=30), rule_m13(repo), rule_m14(repo), rule_m15(repo), rule_m16(repo), rule_m17(repo)]
